@@ -105,3 +105,27 @@ def is_self_attr(e, attr: str = None) -> bool:
 
 def const_str(e) -> Optional[str]:
     return e.value if isinstance(e, ast.Constant) and isinstance(e.value, str) else None
+
+
+def single_defs(fi: FuncInfo) -> Dict[str, ast.expr]:
+    """local name -> its defining expression, for locals assigned exactly once by a plain `name = expr` (parameters excluded)"""
+    cnt: Dict[str, List[ast.expr]] = {}
+    for n in walk_no_nested(fi.node):
+        if isinstance(n, ast.Assign) and len(n.targets) == 1 and isinstance(n.targets[0], ast.Name):
+            cnt.setdefault(n.targets[0].id, []).append(n.value)
+    return {k: v[0] for k, v in cnt.items() if len(v) == 1 and k not in fi.params}
+
+
+def deep_resolve(e, defs: Dict[str, ast.expr], depth: int = 0):
+    """copy of `e` in which single-definition local names are replaced by their definitions, recursively: the result does not
+    depend on what the analysed code calls its temporaries"""
+    import copy as _copy
+    if e is None or depth > 8:
+        return e
+
+    class R(ast.NodeTransformer):
+        def visit_Name(self, n):
+            if isinstance(n.ctx, ast.Load) and n.id in defs and not any(isinstance(x, ast.Name) and x.id == n.id for x in ast.walk(defs[n.id])):
+                return deep_resolve(defs[n.id], defs, depth + 1)
+            return n
+    return R().visit(_copy.deepcopy(e))
